@@ -234,7 +234,8 @@ cdef class cyVariables:
         """
         for submap in iter_safe_relabels(mapping, self):
             for old, new in submap.items():
-                if old == new:
+                if old == new or not self.count(old):
+                    # keys that are not variables are ignored
                     continue
 
                 idx = self._label_to_index.pop(old, old)
